@@ -2,17 +2,37 @@
 import numpy as np
 from vf import core
 from vf.ref import defs, dims, names
+from vf.gen import c14_edits
 from .common import all_names, chunks, udim
 
 RULE = ("exhaustive: every name in unyt's name table, every Unit attribute of unyt.unit_symbols and of the top-level namespace, "
         "resolved by string / attribute / custom-registry namespace and compared with canonical symbol x independent prefix factor "
         "(<=1 ulp), dimension and offset; every prefix spelling (23 symbols + 21 words) x every symbol and alias (prefix must be "
         "refused on non-prefixable units unless that exact string is itself listed); every string with more than one reading in the "
-        "independent resolver must take the symbol/alias reading. distinct = distinct (route, name) pairs")
+        "independent resolver must take the symbol/alias reading. distinct = distinct (route, name) pairs. "
+        "Edited custom registries: for every string X such that <SI prefix>+X is a documented name not meaning prefix x X "
+        "(all pairs enumerated from the name table x prefix table: t-ft/kt/nt, c-pc, a-Pa/ha, d-cd/yd, ... and the alias-level ones) "
+        "every executable word of add-prefixable / add-again / add-not-prefixable / modify-same / modify-new / remove edits of X up to "
+        "length 2 (quick) or 3 (thorough), judged after every step and only at the end, plus seeded random histories (two edited "
+        "symbols, look-ups, namespace builds, deepcopy/pickle of the registry in between); one evaluation = one documented name "
+        "not involving X read by string or from an add_symbols namespace of the edited registry and compared with its documented "
+        "reading (value <=1 ulp, dimension, offset, printed symbol), or X / <prefix>+X compared with the history model; "
+        "distinct = (route, relation, edited symbols, executed word)")
 EXHAUSTIVE = True
 ASSUMPTIONS = ("the independent resolver vf/ref/names.py (symbol/alias > prefix split > title-case of a split) states the intended reading",
-               "unyt's default_unit_name_alternatives is the list of documented alternative spellings")
-MIN_EVALS = 5000
+               "unyt's default_unit_name_alternatives is the list of documented alternative spellings",
+               "edited registries: a documented name 'involves' the edited symbol X when it is X, is listed under X in unyt's name table or resolves to X "
+               "(prefixed forms of a prefixable table symbol); only names that do not involve X must keep their reading",
+               "edited registries: add_symbols() may raise as a whole while an edited *table* symbol is removed or a default-prefixable one is not prefixable "
+               "(unit_symbols attributes that involve it cannot be built); otherwise it must not raise",
+               "edited registries: <prefix>+X that is not a documented name is judged against the history model (prefix x last written value while X is "
+               "prefixable, refused otherwise); 'd'+X for X starting with 'a' is only noted: unyt's documented split rule tries 'da' first and the "
+               "property quantifies over unyt's names, not over a user's",
+               "edited registries: a user's symbol spelled like a listed name (d, in, as ...) is shadowed by the parser for its bare name; the bare name is not judged",
+               "edited registries: JSON round trips are not part of the histories (from_json re-adds removed default symbols by design; C11/C12 matter)",
+               "edited registries: when the table value of a colliding name is exactly prefix x value of the edited symbol with the same dimension "
+               "(user's a = are, table ha) a violation is keyed prefix-collision-equal-value (listed finding: derived entries recognised by value)")
+MIN_EVALS = 50000
 TIMEOUT = 600
 
 
@@ -23,6 +43,13 @@ def batches(tier, seed):
     b += [("prefix-refusal/%d" % i, ("refuse", (i, 8))) for i in range(8)]
     b += [("ambiguous", ("ambiguous", None))]
     b += [("double-prefix/%d" % i, ("double", (i, 8))) for i in range(8)]
+    # edit histories on custom registries (enumerated part ignores the seed)
+    enum = c14_edits.enumerated(tier)
+    nb = 24 if tier == "thorough" else 8
+    b += [("edits-enum/%d" % i, ("edits", enum[i::nb])) for i in range(nb)]
+    nr = 6000 if tier == "thorough" else 600
+    for i in range(nb):
+        b.append(("edits-random/%d" % i, ("edits", c14_edits.random_histories(tier, core.rng(seed, "edits-random", i), nr // nb))))
     return b
 
 
@@ -225,6 +252,9 @@ def worker(batch, rec):
                 rec.ok("ambiguous:" + name)
         rec.count("strings_with_multiple_readings", k)
         rec.sample({"strings_with_multiple_readings": k})
+    elif kind == "edits":
+        from vf.monitors import c14_edits as edit_monitor
+        edit_monitor.run(payload, rec, unyt)
     elif kind == "double":
         i, n = payload
         tab = names.build()
@@ -252,3 +282,31 @@ def worker(batch, rec):
                     continue
                 rec.violation(f"C14:double-prefix-accepted:{label}", f"{name!r} = {p1!r}+{p2!r}+{s!r} accepted after {inner!r} was used (base_value {u.base_value})", name)
         rec.sample({"double_prefix_cases": len(todo), "example": "".join(todo[0])})
+
+
+DECIDING = ("same-symbol-evaluations", "unit_symbols_attrs", "toplevel_unit_attrs", "strings_with_multiple_readings",
+            "edit_histories:enumerated", "edit_histories:enumerated-equal-value", "edit_histories:random",
+            "edits_string_prefix_collision", "edits_string_unrelated", "edits_namespace_prefix_collision", "edits_namespace_unrelated",
+            "edits_edited_symbol", "edits_same_symbol", "edits_namespaces_built", "edits_equal_value_collisions")
+
+
+def extra(tier, seed, results):
+    c = {}
+    reached = set()
+    for _, r in results:
+        for k, v in r.get("counters", {}).items():
+            c[k] = c.get(k, 0) + v
+        reached.update(r.get("reached", []))
+    zero = [k for k in DECIDING if not c.get(k)]
+    zero += ["edit:" + n for n in c14_edits.EDIT_NAME.values() if not c.get("edit:" + n)]
+    zero += ["step:" + n for n in c14_edits.OTHER if not c.get("step:" + n)]
+    pool = c14_edits.pool()
+    cat = {"edited|%s|%s" % (e["level"], e["kind"]) for e in pool}
+    cat |= {"edit:%s|%s|%s" % (n, e["kind"], e["level"]) for e in pool if e["level"] == "symbol" for op, n in c14_edits.EDIT_NAME.items()}
+    sym_pairs = sum(len(e["collide"]) for e in pool if e["level"] == "symbol")
+    if zero:
+        raise core.Inconclusive("sub-monitors-saw-nothing:" + ",".join(zero))
+    return {"sub_monitor_counters": {k: c[k] for k in sorted(c)},
+            "edited_registry_pool": {"symbol_level_symbols": sum(1 for e in pool if e["level"] == "symbol"), "symbol_level_pairs": sym_pairs,
+                                     "alias_level_symbols": sum(1 for e in pool if e["level"] == "alias")},
+            "catalogue_size": len(cat), "unreached": sorted(cat - reached)}
